@@ -7,7 +7,7 @@
    (Corr/EffectsCorr.v: check_C07). *)
 From BT Require Import Base.Prelude Base.Str Heap.Forest Heap.Effects Heap.EffectsProofs
      Spec.PForest Spec.PC07 Corr.EffectsCorr.
-From BT Require Heap.Dag.
+From BT Require Heap.Dag Base.Rose Heap.ForestWF Heap.ForestStep Heap.Abs Algo.Helper Algo.HelperProofs Algo.Export.
 
 (* ------------------------------------------------------------------------------------------ *)
 (* primitives, deep copy, independence *)
@@ -374,4 +374,124 @@ Proof. vm_compute. repeat split. Qed.
 Example C07_dag_shallow_copy_refuted :
   let '(s', r) := dshallow_copy ex_dag 2 in
   Dag.parents s' r = [0; 1] /\ Dag.children s' r = [3] /\ Dag.children s' 0 = [2; 3].
+Proof. vm_compute. repeat split. Qed.
+
+(* ------------------------------------------------------------------------------------------ *)
+(* REFINEMENT of the rose-tree algorithms (Algo/Helper.v, Algo/Export.v) through the abstraction of
+   Heap/Abs.v.  esubtree dec h x = Abs.subtree with the public attributes (decoded by any `dec`);
+   Helper.copy_tree erases the identity tags ("modulo tags"); relabel renames them. *)
+
+Theorem C07_esubtree_is_subtree : forall h f x, etree_of (fun _ => []) h f x = Abs.tree_of (fr h) f x.
+Proof. exact etree_nil. Qed.
+Print Assumptions C07_esubtree_is_subtree.
+
+(* the deep copy of a well-formed forest is a well-formed forest *)
+Theorem C07_copy_WF : forall s r, ForestWF.WF s -> ForestWF.WF (deep_copy_f s r).
+Proof. exact copy_WF. Qed.
+Print Assumptions C07_copy_WF.
+
+(* (1) node.copy() / copy.deepcopy: the copy of any node of the copied tree abstracts to the same rose
+   tree (names, attributes, shape, order) with the tags renamed to the fresh ids *)
+Theorem C07_copy_refines : forall dec h r x,
+  ForestWF.WF (fr h) -> In x (comp (fr h) r) ->
+  esubtree dec (deep_copy h r) (phi (fr h) r x) = relabel (phi (fr h) r) (esubtree dec h x).
+Proof. exact copy_refines. Qed.
+Print Assumptions C07_copy_refines.
+
+(* the depth cut of prune_tree on the heap = HelperProofs.cut (= Helper.depth_cut, del_level_cut) *)
+Theorem C07_depth_cut_refines : forall dec cfg h x k,
+  ForestWF.WF (fr h) ->
+  let s' := run cfg (fr h) (cut_ops (fr h) x (S k)) in
+  ForestWF.WF s' /\ size s' = size (fr h)
+  /\ esubtree dec (with_fr h s') x = HelperProofs.cut k (esubtree dec h x).
+Proof. exact cut_refines. Qed.
+Print Assumptions C07_depth_cut_refines.
+
+(* (2) get_subtree: what the skeleton returns is Helper.depth_cut of a copy of the located subtree *)
+Theorem C07_get_subtree_refines : forall dec cfg h start found md,
+  ForestWF.WF (fr h) -> In found (comp (fr h) start) ->
+  let '(h', r') := sk_get_subtree cfg h start found md in
+  Helper.copy_tree (esubtree dec h' r')
+  = Helper.depth_cut md (Helper.copy_tree (esubtree dec h found)).
+Proof. exact get_subtree_refines. Qed.
+Print Assumptions C07_get_subtree_refines.
+
+(* ... and therefore exactly the tree Algo/Helper.v's get_subtree_at returns, whenever `found` is the
+   node at the position that algorithm locates *)
+Theorem C07_get_subtree_agrees : forall dec cfg h start found md tsep T st path q res,
+  ForestWF.WF (fr h) -> In found (comp (fr h) start) ->
+  helper_located tsep T st path = Ret q ->
+  Rose.subtree_at T q = Some (esubtree dec h found) ->
+  Helper.get_subtree_at false tsep T st path md = Ret res ->
+  Helper.copy_tree (esubtree dec (fst (sk_get_subtree cfg h start found md))
+                             (snd (sk_get_subtree cfg h start found md))) = res.
+Proof. exact get_subtree_agrees. Qed.
+Print Assumptions C07_get_subtree_agrees.
+
+(* (2) prune_tree by depth (no prune paths) *)
+Theorem C07_prune_refines_depth : forall dec cfg h start exact k,
+  ForestWF.WF (fr h) -> start < size (fr h) ->
+  let '(h', r') := sk_prune cfg h start [] exact (S k) in
+  Helper.copy_tree (esubtree dec h' r')
+  = Helper.depth_cut (S k) (Helper.copy_tree (esubtree dec h start)).
+Proof. exact prune_depth_refines. Qed.
+Print Assumptions C07_prune_refines_depth.
+
+(* (3) tree_to_dict: the heap is unchanged and the export computed on the copy is the export of the
+   original's abstraction (Algo/Export.v never looks at identities) *)
+Theorem C07_export_refines : forall dec h start x,
+  ForestWF.WF (fr h) -> In x (comp (fr h) start) ->
+  let h' := sk_export h start in
+  unchanged_below (size (fr h)) h h'
+  /\ forall sep p o,
+       Export.tree_to_dict (esubtree dec h' (phi (fr h) start x)) sep p o
+       = Export.tree_to_dict (esubtree dec h x) sep p o.
+Proof. exact export_refines. Qed.
+Print Assumptions C07_export_refines.
+
+(* (4) the mutating side, shift_nodes for one pair: exactly the parent field of the moved node and
+   the children lists of its old and new parent are written *)
+Theorem C07_shift_nodes_writes : forall cfg h from_ to_,
+  ForestWF.WF (fr h) ->
+  let s := fr h in
+  let s' := fr (sk_move cfg h from_ to_) in
+  (forall x, x <> from_ -> par s' x = par s x)
+  /\ (forall q, par s from_ <> Some q -> q <> to_ -> kids s' q = kids s q)
+  /\ (forall x, name s' x = name s x)
+  /\ (s' = s
+      \/ (par s' from_ = Some to_
+          /\ (forall q, kids s' q = remove1 from_ (kids s q) ++ (if Nat.eqb q to_ then [from_] else [])))).
+Proof. exact shift_writes. Qed.
+Print Assumptions C07_shift_nodes_writes.
+
+(* non-vacuity: a reachable (hence well-formed) heap  a(0)[tags] -> b(1), c(2) -> d(3) *)
+Definition ex_r : forest :=
+  run ex_cfg (init 4 (fun x => [N.of_nat (97 + x)]) (fun _ => [47%N]))
+      [SetParent 1 (ANode 0) NoFault; SetParent 2 (ANode 0) NoFault; SetParent 3 (ANode 2) NoFault].
+Definition ex_rh : eheap := EH ex_r (fun x => match x with 0 => [(0, 5, 1)] | _ => [] end) (fun x => 10 + x) 20.
+Definition ex_dec (l : list (nat * nat)) : Rose.attrs :=
+  map (fun kc => ([N.of_nat (fst kc)], Rose.VInt (Z.of_nat (snd kc)))) l.
+
+Example ex_r_WF : ForestWF.WF (fr ex_rh).
+Proof. apply ForestStep.run_WF. apply ForestWF.WF_init. Qed.
+Example ex_r_comp : comp ex_r 2 = [0; 1; 2; 3] /\ kids ex_r 0 = [1; 2] /\ kids ex_r 2 = [3].
+Proof. vm_compute. repeat split. Qed.
+
+Example ex_copy_refines :
+  esubtree ex_dec (deep_copy ex_rh 2) (phi ex_r 2 0)
+  = Rose.T (Some 4) [97%N] [([0%N], Rose.VInt 5)]
+      [Rose.T (Some 5) [98%N] [] []; Rose.T (Some 6) [99%N] [] [Rose.T (Some 7) [100%N] [] []]].
+Proof. vm_compute. reflexivity. Qed.
+
+Example ex_get_subtree_refines :
+  let '(h', r') := sk_get_subtree ex_cfg ex_rh 1 0 2 in
+  Helper.copy_tree (esubtree ex_dec h' r')
+  = Rose.T None [97%N] [([0%N], Rose.VInt 5)] [Rose.T None [98%N] [] []; Rose.T None [99%N] [] []]
+  /\ Helper.depth_cut 2 (Helper.copy_tree (esubtree ex_dec ex_rh 0))
+     = Rose.T None [97%N] [([0%N], Rose.VInt 5)] [Rose.T None [98%N] [] []; Rose.T None [99%N] [] []].
+Proof. vm_compute. split; reflexivity. Qed.
+
+Example ex_shift_changes_input :
+  kids (fr (sk_move ex_cfg ex_rh 3 1)) 2 = [] /\ kids (fr (sk_move ex_cfg ex_rh 3 1)) 1 = [3]
+  /\ par (fr (sk_move ex_cfg ex_rh 3 1)) 3 = Some 1.
 Proof. vm_compute. repeat split. Qed.
